@@ -80,7 +80,7 @@ def expr_item(c):
         oc = {"ok": 0, "err": 1, "panic": 2}[c["build"]]
         res = "[" + "; ".join("%d%%N" % {"f": 0, "t": 1, "e": 2, "p": 3}[x] for x in c["results"]) + "]"
         rows = t.rowlist(c["rows"], ids) if c["build"] == "ok" else "[]"
-        return "expr_verdict %s %d%%N %s %s %s" % (toks, oc, tree, rows, res)
+        return "expr_verdict " + T.VM + " %s %d%%N %s %s %s" % (toks, oc, tree, rows, res)
     return f
 
 
@@ -91,7 +91,7 @@ def e2e_item(c):
         toks = toks_term(t, c["extra"]["tokens"], ids)
         bs = "[" + "; ".join("%d%%N" % ids[b] for b in (base.get("bindings") or [])) + "]"
         oc = {"ok": 0, "parse": 1, "exec": 2, "panic": 3}.get(res["outcome"], 9)
-        return "e2e13_verdict %s %s %s true %d%%N %s" % (toks, bs, t.rowlist(base.get("rows") or [], ids), oc,
+        return "e2e13_verdict " + T.VM + " %s %s %s true %d%%N %s" % (toks, bs, t.rowlist(base.get("rows") or [], ids), oc,
                                                           t.rowlist(res.get("rows") or [], ids))
     return f
 
@@ -116,7 +116,7 @@ def tail_item(c):
             {"": "OpNone", "count": "OpCount", "sum": "OpSum"}[p["op"]], "true" if p["distinct"] else "false") for p in ex["projs"]) + "]"
         lim = "None" if ex.get("limit") is None else "(Some %s)" % T.zlit(ex["limit"])
         oc = {"ok": 0, "parse": 1, "exec": 2, "panic": 3}.get(res["outcome"], 9)
-        return "tail_verdict %s %s %s %s %s %s %s %d%%N %s %s" % (
+        return "tail_verdict " + T.VM + " %s %s %s %s %s %s %s %d%%N %s %s" % (
             lst(ex["group_by"] or []), projs, T.keys_term(ex["keys"] or [], ids), toks_term(t, ex["tokens"], ids), lim,
             lst(base.get("bindings") or []), t.rowlist(base.get("rows") or [], ids), oc,
             lst(res.get("bindings") or []), t.rowlist(res.get("rows") or [], ids))
